@@ -47,9 +47,15 @@ TRANSCRIBED = {
         ("tensordict/nn/sequence.py", "TensorDictSequential.__setitem__", "C14Seq.inKeys / outKeys of the current list (stream keys_after_mutation)"),
         ("tensordict/nn/sequence.py", "TensorDictSequential.__delitem__", "C14Seq.inKeys / outKeys of the current list (stream keys_after_mutation)"),
         ("tensordict/nn/sequence.py", "TensorDictSequential._recompute_keys", "C14Seq.inKeys / outKeys of the current list"),
+        ("tensordict/nn/sequence.py", "TensorDictSequential._from_selected_modules", "C14Seq.selectNode (the result is a default-option sequence of the kept modules)"),
         ("tensordict/nn/utils.py", "_set_skip_existing_None.__call__", "C14Seq.skips"),
         ("tensordict/nn/probabilistic.py", "ProbabilisticTensorDictModule._dist_sample", "C14Prob.distSample"),
         ("tensordict/nn/probabilistic.py", "ProbabilisticTensorDictModule.forward", "C14Prob.moduleLogProbShape"),
+        ("tensordict/nn/probabilistic.py", "ProbabilisticTensorDictSequential.forward", "C14Auto.forward"),
+        ("tensordict/nn/probabilistic.py", "ProbabilisticTensorDictSequential.log_prob", "C14Auto.logProbCond"),
+        ("tensordict/nn/probabilistic.py", "ProbabilisticTensorDictSequential.get_dist", "C14Auto.logProbFresh"),
+        ("tensordict/nn/probabilistic.py", "ProbabilisticTensorDictSequential._get_dist_composite", "C14Auto.logProbCond / logProbFresh"),
+        ("tensordict/nn/probabilistic.py", "ProbabilisticTensorDictSequential._from_selected_modules", "C14Seq.selectNode (class of the result)"),
         ("tensordict/nn/distributions/composite.py", "CompositeDistribution.log_prob", "C14Prob.compositeLogProbShape"),
         ("tensordict/nn/distributions/composite.py", "CompositeDistribution.log_prob_composite", "C14Prob.perHeadShapes"),
         ("tensordict/base.py", "TensorDictBase.update", "C14Seq.updKeys / updAliases"),
